@@ -96,7 +96,16 @@ pub mod trace {
 }
 
 pub mod knobs {
-    use ::std::sync::atomic::{AtomicUsize, Ordering};
+    use ::std::sync::atomic::{AtomicU32, AtomicUsize, Ordering};
+    static LC_REFRESH: AtomicU32 = AtomicU32::new(100_000);
+    /// lifecycle stage: number of messages after which marked lifecycles are re-published
+    /// (100 000 in the shipped code; a per-run knob so that the regular refresh path runs with small traces)
+    pub fn lc_regular_refresh_interval() -> u32 {
+        LC_REFRESH.load(Ordering::SeqCst)
+    }
+    pub fn set_lc_regular_refresh_interval(n: u32) {
+        LC_REFRESH.store(if n == 0 { 100_000 } else { n }, Ordering::SeqCst);
+    }
     use ::std::sync::Mutex;
     static CAPS: Mutex<Vec<usize>> = Mutex::new(Vec::new());
     static NEXT: AtomicUsize = AtomicUsize::new(0);
